@@ -93,6 +93,7 @@ type retEv struct {
 
 type server struct {
 	mu    sync.Mutex
+	nfree map[uint16]int // size-free replies so far (see sizeFor in seq.go)
 	n     map[uint16]int
 	wires []wireEv
 	p     *peer.Peer
@@ -131,9 +132,9 @@ func (s *server) onMsg(proto uint16, mt uint, raw []byte) {
 			}
 			reply(kTmHasTx, id, []byte{0x82, 0x08, b})
 		case 5:
-			tx := make([]byte, 8)
-			binary.BigEndian.PutUint64(tx, uint64(i))
-			reply(kTmNextTx, 0, cat([]byte{0x82, 0x06, 0x82, 0x01, 0xd8, 0x18, 0x48}, tx))
+			k := s.nfree[proto]
+			s.nfree[proto] = k + 1
+			reply(kTmNextTx, 0, nextTxReply(i, sizeFor(k)))
 		case 9:
 			reply(kTmSizes, 0, cat([]byte{0x82, 0x0a, 0x83}, cborHead(0, uint64(i)), cborHead(0, uint64(i+100000)), cborHead(0, uint64(i+200000))))
 		default: // Release / Done: no reply
@@ -163,7 +164,9 @@ func (s *server) onMsg(proto uint16, mt uint, raw []byte) {
 		case 0, 6, 8, 9, 10, 11:
 			reply(kLsqAcquire, 0, []byte{0x81, 0x01})
 		case 3:
-			reply(kLsqQuery, 0, cat([]byte{0x82, 0x04, 0x82, 0x01}, cborHead(0, uint64(i))))
+			k := s.nfree[proto]
+			s.nfree[proto] = k + 1
+			reply(kLsqQuery, 0, intArrayReply(0x04, []uint64{1, uint64(i)}, sizeFor(k)))
 		default:
 			s.mu.Unlock()
 		}
@@ -203,7 +206,7 @@ type outcome struct {
 
 func runScenario(sc scenario) (out outcome) {
 	mk := func(ntn bool) (*server, *ouroboros.Connection, error) {
-		s := &server{n: map[uint16]int{}, delay: vh.NewRng(sc.Seed ^ 0x5555)}
+		s := &server{n: map[uint16]int{}, nfree: map[uint16]int{}, delay: vh.NewRng(sc.Seed ^ 0x5555)}
 		s.p = peer.New(ntn)
 		s.p.OnMsg = s.onMsg
 		opts := []ouroboros.ConnectionOptionFunc{
@@ -279,10 +282,8 @@ func runScenario(sc scenario) (out outcome) {
 					tx, err := tm.NextTx()
 					if err != nil {
 						ev.Err = err.Error()
-					} else if len(tx) == 8 {
-						ev.Tag = int64(binary.BigEndian.Uint64(tx))
 					} else {
-						ev.Tag = -2
+						ev.Tag = txTag(tx) // 16-bit tag + filler check (-2: assembled from different replies)
 					}
 				case 2:
 					ev.Kind = kTmSizes
@@ -582,6 +583,9 @@ func run(c *vh.Ctx) error {
 	// sequence class (acquire / re-acquire / release), regression corpus first
 	runSeqOne(c, cfs, seqScenario{Ops: []string{"acqV", "era", "acqI", "era", "epoch", "acqP", "epoch", "era", "rel", "era", "point", "acqV", "start", "acqV", "epoch"}})
 	runSeqOne(c, cfs, seqScenario{Ops: []string{"epoch", "acqP", "epoch", "blockno", "acqI", "era", "tmhas", "tmacq", "tmsizes", "tmrel", "tmnext"}})
+	// multi-segment replies (65535 / 65536 / 70000 / 140000 bytes) alternating with small ones on one instance
+	runSeqOne(c, cfs, seqScenario{Ops: []string{"acqV", "blockno", "blockno", "epoch", "blockno", "point", "blockno", "epoch", "blockno", "era", "blockno", "blockno",
+		"tmnext", "tmnext", "tmhas", "tmnext", "tmnext", "tmsizes", "tmnext", "tmnext", "tmrel", "tmnext", "tmnext"}})
 	for i := 0; i < c.Pick(14, 150); i++ {
 		runSeqOne(c, cfs, genSeq(c.Rng, 8+c.Rng.Intn(18)))
 	}
